@@ -101,7 +101,11 @@ func fieldHeapName(owner types.Type, i int) string {
 	if _, ok := owner.(*types.Named); !ok {
 		key = fmt.Sprintf("anon%x", hashString(st.String()))
 	}
-	return "H$" + key + "$" + sanitize(st.Field(i).Name())
+	fname := sanitize(st.Field(i).Name())
+	if fname == "_" {
+		fname = fmt.Sprintf("_%d", i)
+	}
+	return "H$" + key + "$" + fname
 }
 func elemHeapName(elem types.Type) string { return "E$" + typeKey(elem) }
 func boxHeapName(t types.Type) string     { return "B$" + typeKey(t) }
@@ -133,7 +137,9 @@ func (e *Exec) heapTerm(st *State, name string) string {
 		if st.epoch == 0 {
 			saved := e.ctx.tag
 			e.ctx.tag = 0
+			e.entryFacts = true
 			e.heapFacts(st, name, t, hi, e.nextRef0, "true")
+			e.entryFacts = false
 			e.ctx.tag = saved
 		} else if ef := e.epochFrames[st.epoch]; ef != nil {
 			// heap first mentioned after an effect with a known frame: relate
@@ -194,8 +200,10 @@ func (e *Exec) heapFacts(st *State, name, t string, hi *heapInfo, nextRef, pc st
 	}
 	if hi.valType == nil {
 		if hi.kind == 'G' {
-			if nextRef == e.nextRef0 {
-				e.ctx.assume("(forall ((r Int)) (! (= (select " + t + " r) 0) :pattern ((select " + t + " r))))")
+			if e.entryFacts {
+				// a goroutine / function under contract starts with no lock held
+				// unless its `requires` say otherwise: only the entry version is 0
+				// where the contract does not constrain it
 			}
 		}
 		return
